@@ -622,6 +622,7 @@ func c02(p *model.Prog, r *report.Result) {
 	w7AacSeqHeaderCodec(p, r, "C02.R12")
 	w7HevcCacheSets(p, r, "C02.R13")
 	w8CacheResetWithRefill(p, r, "C02.R14")
+	w9CacheConfigOfOwnProtocol(p, r, "C02.R15")
 	c16r10(p, r, "C02.R8")
 	c02r9(p, r)
 	c02r10(p, r)
